@@ -134,14 +134,6 @@ func (p C03) Run(c *sim.Ctx, t *sim.Tape) sim.RunResult {
 			}
 		}
 
-		if o.K == "RemoveAll" && out.a.Err != "ok" && o.P != "/" && o.P != "" {
-			// documented partial effect, order not specified: bring both sides back in step.
-			_ = w.fs.RemoveAll(o.P)
-			_, _ = w.k.call(kReq{Cmd: "wipe", Paths: []string{o.P}})
-			w.snap = fsx.Snapshot(w.fs, "/", fsx.SnapOpts{})
-			c.Count("resync_after_failed_removeall", 1)
-		}
-
 		return false
 	}
 
